@@ -9,7 +9,7 @@
    selection that are in the tree - by SortOK, those that hold a value.
    tidwall/btree is modelled as an ordered set for the comparator it is given (trusted). *)
 From stdpp Require Import gmap sorting.
-From ColumnV Require Import Bytes Store StoreProofs StoreProofs3.
+From ColumnV Require Import Bytes Store StoreProofs StoreProofs3 StoreProofs6.
 
 Theorem c16_tree_exact_after_commit : ∀ s t, wf_row t → SortOK s → SortOK (commit s t).
 Proof. exact commit_sort_ok. Qed.
@@ -36,3 +36,9 @@ Example c16_example :
   let t' := mktxn None (tbufs t) [mkop KInsert 0 V0; mkop KInsert 1 V0; mkop KInsert 2 V0; mkop KInsert 3 V0; mkop KInsert 4 V0]%N [] in
   ascend_list (commit s1 t') txn0 7 = [1; 3; 0; 2; 4]%N.
 Proof. vm_compute. done. Qed.
+
+(* over whole histories: in every state reachable from the empty collection by admissible
+   histories (StoreProofs6.history_ok) the invariant holds *)
+Theorem c16_reachable : ∀ h, history_ok coll0 h → SortOK (foldl hrun coll0 h).
+Proof. intros h H. by destruct (reachable_inv h H). Qed.
+Print Assumptions c16_reachable.
